@@ -43,7 +43,10 @@ type CtlCmd struct {
 // is over. A step with a reset resets every component of the stack (see genCtl).
 type CtlStep struct {
 	After int      `json:"after"`
-	Cmds  []CtlCmd `json:"cmds"`
+	// StallTick > 0: the step starts instead once the requester has not been retrieving for that many ticks
+	// (a reset while answers cannot be delivered upwards)
+	StallTick int      `json:"stall_tick,omitempty"`
+	Cmds      []CtlCmd `json:"cmds"`
 }
 
 // StackCfg is one assembly with its workload (complete: replayable as is).
@@ -67,6 +70,14 @@ type StackCfg struct {
 	TLBLat  int    `json:"tlb_lat"`
 	Ctl     []CtlStep `json:"ctl"`
 	MaxTime uint64 `json:"max_time_ps"`
+	// rob: what the reorder buffer sits on ("wb" | "wt": hits overtake misses, so answers come back out of order)
+	Lower string `json:"lower,omitempty"`
+	// the requester retrieves nothing from its port during ticks [ReqStallFrom, ReqStallFrom+ReqStallLen): the Top port
+	// of the first component fills up, so answered requests cannot be delivered
+	ReqStallFrom int `json:"req_stall_from,omitempty"`
+	ReqStallLen  int `json:"req_stall_len,omitempty"`
+	// ReqStallAfterSent > 0: the stall starts instead when that many requests have been sent
+	ReqStallAfterSent int `json:"req_stall_after_sent,omitempty"`
 }
 
 type stackComp interface {
@@ -116,6 +127,9 @@ type requester struct {
 	answered    int
 	strays      int
 	refusedCtl  int
+	ticks       int
+	stallStart  int // tick at which a sent-count-triggered stall began (0: not yet)
+	stalledFor  int
 }
 
 var verbs = map[string]memcontrolprotocol.Command{
@@ -132,7 +146,19 @@ func (r *requester) idle() bool {
 // Tick implements modeling.Middleware.
 func (r *requester) Tick() bool {
 	progress := false
-	for {
+	r.ticks++
+	stalled := r.ticks >= r.cfg.ReqStallFrom && r.ticks < r.cfg.ReqStallFrom+r.cfg.ReqStallLen
+	if r.cfg.ReqStallAfterSent > 0 {
+		if r.stallStart == 0 && r.sent >= r.cfg.ReqStallAfterSent {
+			r.stallStart = r.ticks
+		}
+		stalled = r.stallStart > 0 && r.ticks < r.stallStart+r.cfg.ReqStallLen
+	}
+	if stalled {
+		r.stalledFor++
+		progress = true // keeps ticking; retrieving resumes after the stall
+	}
+	for !stalled {
 		msg := r.out.RetrieveIncoming()
 		if msg == nil {
 			break
@@ -181,7 +207,8 @@ func (r *requester) Tick() bool {
 	// control script
 	for {
 		if !r.inStep {
-			if r.stepIdx < len(r.cfg.Ctl) && r.cfg.Ctl[r.stepIdx].After <= r.sent {
+			if r.stepIdx < len(r.cfg.Ctl) && ((r.cfg.Ctl[r.stepIdx].StallTick == 0 && r.cfg.Ctl[r.stepIdx].After <= r.sent) ||
+				(r.cfg.Ctl[r.stepIdx].StallTick > 0 && (r.stalledFor >= r.cfg.Ctl[r.stepIdx].StallTick || r.sent >= len(r.ops)))) {
 				r.inStep, r.cmdIdx, r.hadReset = true, 0, false
 				progress = true
 			} else {
@@ -437,6 +464,25 @@ func buildStack(cfg StackCfg) *stack {
 		s.comps[0], s.comps[1] = s.comps[1], s.comps[0]
 		s.connect("ConnTop", rq.out, top(first))
 		s.connect("ConnBottom", bottom(first), top(leaf))
+	case "rob":
+		leaf := s.buildLeaf("Mem")
+		var cache stackComp
+		if c.Lower == "wt" {
+			cache = s.buildWT("Cache", c.Policy, top(leaf).AsRemote())
+		} else {
+			cache = s.buildWB("Cache", top(leaf).AsRemote())
+		}
+		rsp := rob.DefaultSpec()
+		rsp.NumReqPerCycle = 2
+		rsp.BufferSize = 16
+		rsp.BottomUnit = top(cache).AsRemote()
+		rb := rob.MakeBuilder().WithRegistrar(s.reg).WithSpec(rsp).Build("ROB")
+		s.assign(rb, "Top", "Bottom", "Control")
+		first = rb
+		s.comps = []stackComp{rb, cache, leaf}
+		s.connect("ConnTop", rq.out, top(rb))
+		s.connect("ConnROB", bottom(rb), top(cache))
+		s.connect("ConnBottom", bottom(cache), top(leaf))
 	case "l1l2":
 		leaf := s.buildLeaf("Mem")
 		l2 := s.buildWB("L2", top(leaf).AsRemote())
@@ -546,7 +592,7 @@ func (s *stack) storageDigest() string {
 
 // ---------------------------------------------------------------- generation
 
-var stackKinds = []string{"ideal", "wb", "wt", "l1l2", "vm", "dram", "banked", "wb", "wt", "l1l2"}
+var stackKinds = []string{"ideal", "wb", "wt", "l1l2", "vm", "rob", "dram", "banked", "wb", "wt", "rob", "l1l2"}
 
 // genStack draws assembly number i of a run; ctlMode: none | soft (no reset) | reset | mixed.
 func genStack(rng *rand.Rand, i, ops int, ctlMode string) StackCfg {
@@ -560,6 +606,18 @@ func genStack(rng *rand.Rand, i, ops int, ctlMode string) StackCfg {
 		c.Leaf = c.Kind
 	case "wb", "wt", "l1l2":
 		c.Leaf = pick(rng, "ideal", "ideal", "ideal", "banked", "dram")
+	case "rob":
+		// a reorder buffer over a cache over a slow memory: hits overtake misses, so the buffer holds
+		// answered-but-unretired transactions behind an outstanding miss
+		c.Lower = pick(rng, "wb", "wb", "wt")
+		c.Window, c.MemLat, c.Lines = pick(rng, 8, 12, 16), pick(rng, 40, 100), pick(rng, 6, 12)
+		c.PortBuf, c.WriteP = pick(rng, 1, 2, 4), pick(rng, 0.2, 0.5)
+		c.Sets, c.Ways = pick(rng, 2, 4), pick(rng, 2, 4)
+	}
+	// sometimes the requester stops retrieving for a while: the Top port of the first component fills up and
+	// answered requests wait inside the components
+	if rng.Intn(3) == 0 || (c.Kind == "rob" && rng.Intn(2) == 0) {
+		c.ReqStallFrom, c.ReqStallLen = 2+rng.Intn(30), 20+rng.Intn(150)
 	}
 	names := stackNames(c)
 	mode := ctlMode
@@ -573,13 +631,24 @@ func genStack(rng *rand.Rand, i, ops int, ctlMode string) StackCfg {
 	at := 0
 	for k := 0; k < nsteps; k++ {
 		at += 1 + rng.Intn(max(2, c.Ops/(nsteps+1)))
+		robReset := c.Kind == "rob" && mode == "reset" && k == 0
+		if robReset {
+			// once the cache is warm the requester stops retrieving; the first sweep comes during that stall: hits have been
+			// answered, misses are still out, the Top port is full — the reorder buffer holds transactions that have their
+			// answer but cannot retire
+			at = c.Ops/3 + rng.Intn(max(1, c.Ops/4))
+			c.ReqStallFrom, c.ReqStallAfterSent, c.ReqStallLen = 0, at, 200+rng.Intn(100)
+		}
 		if at >= c.Ops {
 			break
 		}
 		st := CtlStep{After: at}
+		if robReset {
+			st.StallTick = 10 + rng.Intn(60)
+		}
 		tgt := names[rng.Intn(len(names))]
 		kind := "soft"
-		if mode == "reset" && (k == nsteps-1 || rng.Intn(2) == 0) {
+		if mode == "reset" && (k == nsteps-1 || rng.Intn(2) == 0 || robReset) {
 			kind = "reset"
 		}
 		switch kind {
@@ -604,7 +673,9 @@ func genStack(rng *rand.Rand, i, ops int, ctlMode string) StackCfg {
 				}
 			}
 			prePause := rng.Intn(3) == 0
-			if w := rng.Intn(3); w > 0 {
+			if robReset {
+				// no further wait: the instant is set by StallTick
+			} else if w := rng.Intn(3); w > 0 {
 				st.Cmds = append(st.Cmds, CtlCmd{Cmd: "wait", N: rng.Intn(40)})
 			}
 			if prePause {
@@ -632,6 +703,8 @@ func stackNames(c StackCfg) []string {
 	switch c.Kind {
 	case "wb", "wt":
 		return []string{"Cache", "Mem"}
+	case "rob":
+		return []string{"ROB", "Cache", "Mem"}
 	case "l1l2":
 		return []string{"L1", "L2", "Mem"}
 	case "vm":
